@@ -161,7 +161,9 @@ impl BackupImport {
                 );
                 let target = account_paths.into_file_path(file);
                 let blob_buffer =
-                    self.zip_reader.by_name(&entry_name).await?.unwrap();
+                    self.zip_reader.by_name(&entry_name).await?.ok_or_else(
+                        || Error::NoBlobFile(entry_name.clone()),
+                    )?;
 
                 if let Some(parent) = target.parent() {
                     vfs::create_dir_all(parent).await?;
